@@ -1,6 +1,7 @@
 """Contracts for /repo/src/cminx/aggregator.py (C01-C04, C08-C12)."""
 from pyvc.dsl import *
 from contracts.specs import *
+from contracts.c_rstwriter import *
 try:
     from cminx.documentation_types import VarType, TestDocumentation, MethodDocumentation
 except ImportError:      # the verifier only parses this file
@@ -11,6 +12,7 @@ FIELD_TYPES = {
     "AttributeDocumentation.default_value": "opt[str]",
     "DocumentationAggregator.documented_classes_stack": "list[optref:ClassDocumentation]",
     "DocumentationAggregator.logger": "ref",
+    "Settings.input": "ref:InputSettings", "Settings.rst": "ref:RSTSettings", "Settings.output": "ref:OutputSettings",
 }
 NULLABLE = ["DocumentationAggregator.logger"]
 # Ownership discipline (assumption): each of these fields holds a list created for it (a `[]` in a constructor)
